@@ -658,6 +658,7 @@ const (
 )
 
 type Case struct {
+	Share       string // one in-memory child reachable through several relations: "" | "mentor=boss" | "friends=seen" | "friends=seen+new" | "boss-across-parents"
 	FailWith    string // write operations: the error value failing hooks return (query operations try every value)
 	Raw         bool   // find / first / take: the SQL is given with db.Raw(..), gorm builds no clauses
 	Handle      string // flavour of the handle the operation starts from: "" | "withcontext" | "session-initialized" | "session-newdb" | "debug"
@@ -726,6 +727,9 @@ func (c Case) String() string {
 	fmt.Fprintf(&b, "%s seed=%v %s %s", c.kit().name, c.Seed, c.Op, c.Shape)
 	if c.Raw {
 		b.WriteString(" Raw-SQL")
+	}
+	if c.Share != "" {
+		b.WriteString(" shared-child:" + c.Share)
 	}
 	if c.FailWith != "" && c.FailWith != "sentinel" {
 		b.WriteString(" hooks-fail-with=" + c.FailWith)
@@ -1071,16 +1075,26 @@ type memory struct {
 	model interface{}        // map creates: the Model(..) value
 }
 
-func buildParent(r RecSpec) Parent {
+// buildParent: pointer-typed children (Boss, Mentor, Friends) with equal tags are ONE in-memory
+// object reachable through several relations (pool is shared by all parents of the argument).
+func buildParent(r RecSpec, pool map[string]*Child) Parent {
 	p := Parent{ID: r.ID, Tag: r.Tag, Name: r.Name, Note: r.Note, Age: r.Age}
+	obj := func(k KidSpec) *Child {
+		if ch, ok := pool[k.Tag]; ok {
+			return ch
+		}
+		ch := &Child{Tag: k.Tag, Name: k.Name}
+		pool[k.Tag] = ch
+		return ch
+	}
 	if r.Boss != nil {
-		p.Boss = &Child{Tag: r.Boss.Tag, Name: r.Boss.Name}
+		p.Boss = obj(*r.Boss)
 	}
 	for _, k := range r.Kids {
 		p.Kids = append(p.Kids, Child{Tag: k.Tag, Name: k.Name})
 	}
 	if r.Mentor != nil {
-		p.Mentor = &Child{Tag: r.Mentor.Tag, Name: r.Mentor.Name}
+		p.Mentor = obj(*r.Mentor)
 	}
 	for _, k := range r.Items {
 		p.Items = append(p.Items, Item{Tag: k.Tag, Name: k.Name})
@@ -1089,7 +1103,7 @@ func buildParent(r RecSpec) Parent {
 		p.Desk = Child{Tag: r.Desk.Tag, Name: r.Desk.Name}
 	}
 	for _, k := range r.Friends {
-		p.Friends = append(p.Friends, &Child{Tag: k.Tag, Name: k.Name})
+		p.Friends = append(p.Friends, obj(k))
 	}
 	return p
 }
@@ -1115,6 +1129,7 @@ func buildParentMem(c *Case) *memory {
 	m := &memory{ptrs: map[string]uintptr{}}
 	ref := func(p *Parent) memRec { return memRec{Tag: p.Tag, ID: p.ID, Ptr: uintptr(unsafe.Pointer(p))} }
 	n := len(c.Recs)
+	pool := map[string]*Child{}
 	switch c.Op {
 	case opPluck:
 		m.arg = &Parent{}
@@ -1155,7 +1170,7 @@ func buildParentMem(c *Case) *memory {
 		if c.Shape == shCond {
 			p = &Parent{Tag: "cond"}
 		} else {
-			v := buildParent(c.Recs[0])
+			v := buildParent(c.Recs[0], pool)
 			p = &v
 		}
 		m.arg = p
@@ -1163,7 +1178,7 @@ func buildParentMem(c *Case) *memory {
 	case shPtrSlice, shSlice:
 		s := make([]Parent, n)
 		for i, r := range c.Recs {
-			s[i] = buildParent(r)
+			s[i] = buildParent(r, pool)
 			parents = append(parents, &s[i])
 		}
 		if c.Shape == shPtrSlice {
@@ -1174,14 +1189,14 @@ func buildParentMem(c *Case) *memory {
 	case shPtrArray:
 		arr := &[2]Parent{}
 		for i, r := range c.Recs {
-			arr[i] = buildParent(r)
+			arr[i] = buildParent(r, pool)
 			parents = append(parents, &arr[i])
 		}
 		m.arg = arr
 	case shPtrPSlice, shPSlice:
 		s := make([]*Parent, n)
 		for i, r := range c.Recs {
-			v := buildParent(r)
+			v := buildParent(r, pool)
 			s[i] = &v
 			parents = append(parents, s[i])
 		}
@@ -1741,6 +1756,7 @@ func expect(c *Case, m *memory) expectation {
 	if !c.hooksRun() {
 		return ex
 	}
+	wantedChild := map[string]bool{} // pointer-typed children by tag: equal tag = one in-memory record
 	for i, p := range m.recs {
 		w := want{Tag: p.Tag, Model: k.name, Table: k.table, Ptr: p.Ptr}
 		switch c.Op {
@@ -1767,13 +1783,16 @@ func expect(c *Case, m *memory) expectation {
 		if c.Shape != shCond && c.Op != opDelete {
 			// the association callbacks run in the create and in the update pipeline alike
 			r := c.Recs[i]
-			if r.Boss != nil {
+			if r.Boss != nil && !wantedChild[r.Boss.Tag] {
+				wantedChild[r.Boss.Tag] = true
 				ex.Wants = append(ex.Wants, want{Tag: r.Boss.Tag, Model: "Child", Kind: "create", Table: "children", Parent: p.Tag, Ptr: m.ptrs[r.Boss.Tag]})
 			}
 			for _, kd := range r.Kids {
 				ex.Wants = append(ex.Wants, want{Tag: kd.Tag, Model: "Child", Kind: "create", Table: "children", Parent: p.Tag, Ptr: m.ptrs[kd.Tag]})
 			}
-			if r.Mentor != nil {
+			if r.Mentor != nil && !wantedChild[r.Mentor.Tag] {
+				// (a record that is also the boss is one in-memory record: one set of hooks)
+				wantedChild[r.Mentor.Tag] = true
 				ex.Wants = append(ex.Wants, want{Tag: r.Mentor.Tag, Model: "Child", Kind: "create", Table: "children", Parent: p.Tag, Ptr: m.ptrs[r.Mentor.Tag]})
 			}
 			for _, kd := range r.Items {
@@ -1783,6 +1802,10 @@ func expect(c *Case, m *memory) expectation {
 				ex.Wants = append(ex.Wants, want{Tag: r.Desk.Tag, Model: "Child", Kind: "create", Table: "children", Parent: p.Tag, Ptr: m.ptrs[r.Desk.Tag]})
 			}
 			for _, kd := range r.Friends {
+				if wantedChild[kd.Tag] {
+					continue
+				}
+				wantedChild[kd.Tag] = true
 				ex.Wants = append(ex.Wants, want{Tag: kd.Tag, Model: "Child", Kind: "create", Table: "children", Parent: p.Tag, Ptr: m.ptrs[kd.Tag]})
 			}
 		}
@@ -2183,6 +2206,16 @@ func checkStored(c *Case, ex expectation, res runResult) []string {
 				kids = append(kids, *r.Desk)
 			}
 			kids = append(kids, r.Friends...)
+			{
+				uniq, seenTag := kids[:0:0], map[string]bool{}
+				for _, k := range kids {
+					if !seenTag[k.Tag] {
+						seenTag[k.Tag] = true
+						uniq = append(uniq, k)
+					}
+				}
+				kids = uniq
+			}
 			for _, k := range r.Items {
 				var irows []iRow
 				for _, ir := range t.I {
@@ -2218,19 +2251,30 @@ func checkStored(c *Case, ex expectation, res runResult) []string {
 				if crows[0].Name != wantName {
 					bad("child record %s: expected stored name %q (set=%q), the row holds %q", k.Tag, wantName, c.Set, crows[0].Name)
 				}
+				role := false
 				if r.Boss != nil && k.Tag == r.Boss.Tag {
+					role = true
 					if row.BossID == nil || *row.BossID != crows[0].ID {
 						bad("record %s does not reference its boss row %d", r.Tag, crows[0].ID)
 					}
-				} else if r.Mentor != nil && k.Tag == r.Mentor.Tag {
+				}
+				if r.Mentor != nil && k.Tag == r.Mentor.Tag {
+					role = true
 					if row.MentorID == nil || *row.MentorID != crows[0].ID {
 						bad("record %s does not reference its mentor row %d", r.Tag, crows[0].ID)
 					}
-				} else if r.Desk != nil && k.Tag == r.Desk.Tag {
+				}
+				if r.Desk != nil && k.Tag == r.Desk.Tag {
+					role = true
 					if crows[0].OwnerID == nil || *crows[0].OwnerID != row.ID {
 						bad("has-one record %s does not reference its owner row %d", k.Tag, row.ID)
 					}
-				} else if strings.Contains(k.Tag, ".f") {
+				}
+				for _, f := range r.Friends {
+					if f.Tag != k.Tag {
+						continue
+					}
+					role = true
 					linked := false
 					for _, j := range t.J {
 						if j.ParentID == row.ID && j.ChildID == crows[0].ID {
@@ -2240,7 +2284,8 @@ func checkStored(c *Case, ex expectation, res runResult) []string {
 					if !linked {
 						bad("many2many record %s is not linked to row %d in parent_friends", k.Tag, row.ID)
 					}
-				} else if crows[0].ParentID == nil || *crows[0].ParentID != row.ID {
+				}
+				if !role && (crows[0].ParentID == nil || *crows[0].ParentID != row.ID) {
 					bad("child record %s does not reference its parent row %d", k.Tag, row.ID)
 				}
 			}
@@ -2461,6 +2506,9 @@ func caseClasses(c *Case) []string {
 	if c.Raw {
 		cl = append(cl, "raw-sql")
 	}
+	if c.Share != "" {
+		cl = append(cl, "shared-child:"+c.Share)
+	}
 	if c.AuditCreate {
 		cl = append(cl, "hooks-write-audits-by-create")
 	}
@@ -2654,6 +2702,69 @@ func drawChildren(t *rapid.T, r *RecSpec, rich bool, k *kit) {
 	}
 }
 
+// drawShare lets one in-memory child be reachable through several relations of the operation (the
+// records of c are Parents with children). Returns the sharing it installed.
+func drawShare(t *rapid.T, c *Case) string {
+	var withBoss, withAnyBT, withNewFriend []int
+	for i, r := range c.Recs {
+		if r.Boss != nil {
+			withBoss = append(withBoss, i)
+		}
+		if r.Boss != nil || r.Mentor != nil {
+			withAnyBT = append(withAnyBT, i)
+			if len(r.Friends) > 0 {
+				withNewFriend = append(withNewFriend, i)
+			}
+		}
+	}
+	opts := []string{"", "", ""}
+	if len(withBoss) > 0 {
+		opts = append(opts, "mentor=boss", "mentor=boss")
+	}
+	if len(withAnyBT) > 0 {
+		opts = append(opts, "friends=seen", "friends=seen")
+	}
+	if len(withNewFriend) > 0 {
+		opts = append(opts, "friends=seen+new")
+	}
+	if len(withBoss) >= 2 {
+		opts = append(opts, "boss-across-parents")
+	}
+	share := rapid.SampledFrom(opts).Draw(t, "share")
+	seenOf := func(r *RecSpec) []KidSpec {
+		var s []KidSpec
+		if r.Boss != nil {
+			s = append(s, *r.Boss)
+		}
+		if r.Mentor != nil && (r.Boss == nil || r.Mentor.Tag != r.Boss.Tag) {
+			s = append(s, *r.Mentor)
+		}
+		return s
+	}
+	switch share {
+	case "mentor=boss":
+		// (the belongs-to callback pools the mentors of all parents of the argument: all of them seen)
+		for i := range c.Recs {
+			c.Recs[i].Mentor = c.Recs[i].Boss
+		}
+	case "friends=seen":
+		// the many2many callback pools the friends of all parents of the argument into one slice:
+		// "only seen records" has to hold for the whole argument
+		for i := range c.Recs {
+			c.Recs[i].Friends = seenOf(&c.Recs[i])
+		}
+	case "friends=seen+new":
+		for _, i := range withNewFriend {
+			c.Recs[i].Friends = append(seenOf(&c.Recs[i]), c.Recs[i].Friends...)
+		}
+	case "boss-across-parents":
+		for _, i := range withBoss[1:] {
+			c.Recs[i].Boss = c.Recs[withBoss[0]].Boss
+		}
+	}
+	return share
+}
+
 func drawCase(t *rapid.T) *Case {
 	c := &Case{}
 	// the full-featured Parent about half of the time, otherwise one of the hook-subset models
@@ -2768,6 +2879,9 @@ func drawCase(t *rapid.T) *Case {
 			drawChildren(t, &r, rich, k)
 			c.Recs = append(c.Recs, r)
 		}
+		if rich && isParent {
+			c.Share = drawShare(t, c)
+		}
 		if c.Op == opCreateBatches {
 			c.Batch = rapid.IntRange(1, n+1).Draw(t, "batch")
 		}
@@ -2824,6 +2938,9 @@ func drawCase(t *rapid.T) *Case {
 			}
 			drawChildren(t, &r, richUpd, k)
 			c.Recs = append(c.Recs, r)
+		}
+		if richUpd {
+			c.Share = drawShare(t, c)
 		}
 		if c.Op == opUpdates || c.Op == opUpdateColumns {
 			c.Form = rapid.SampledFrom([]string{"struct", "map"}).Draw(t, "form")
@@ -2994,6 +3111,7 @@ const rule = "C13: rapid draws a top-level model type - Parent (all nine hooks; 
 	"Find / FindInBatches / First / Take / Last / FirstOrInit / FirstOrCreate with optional Preload, Find / First / Take over the caller's own db.Raw(..) SQL, and Pluck / Count; " +
 	"with or without Session{SkipHooks}, default transaction on or SkipDefaultTransaction (Config or Session), PrepareStmt (Config or Session), dialector with or without RETURNING, FullSaveAssociations, DisableNestedTransaction, " +
 	"outside or inside a caller transaction (Begin, Transaction closure, nested Transaction = save point), from a plain / WithContext / Session{Initialized} / Session{NewDB} / Debug handle, after a sibling SkipHooks session or a column update on the same reusable handle; " +
+	"one in-memory child may be reachable through several relations of the operation (same pointer as two belongs-to, or as a belongs-to and the many2many slice: still one set of hooks); " +
 	"a before-hook of Parent may set Name directly or through Statement.SetColumn; hooks of a write may also store a side row through their handle (Exec or a nested gorm Create). " +
 	"The operation runs fault-free once (H hook invocations; event-log grammar, transaction identity and stored values checked), then EVERY h<H is run with the h-th invocation returning an error, each from an identical fresh database " +
 	"- the failing hook returns its own sentinel, gorm.ErrRecordNotFound bare or wrapped, context.Canceled, sql.ErrNoRows, sql.ErrTxDone, gorm.ErrInvalidTransaction or driver.ErrBadConn (every value for reads, one drawn value per write case) - " +
@@ -3012,6 +3130,14 @@ func TestC13(t *testing.T) {
 		}
 		if c.inClassMixedReceiver() && harness.OpenClass("C13", classMixedReceiver) {
 			evid.Excluded(classMixedReceiver)
+			return
+		}
+		if c.hooksRun() && c.Share == "friends=seen+new" && harness.OpenClass("C13", classSharedPartlyNew) {
+			evid.Excluded(classSharedPartlyNew)
+			return
+		}
+		if c.Share == "boss-across-parents" && harness.OpenClass("C13", classSharedAcrossParents) { // (the duplicate rows need no hooks)
+			evid.Excluded(classSharedAcrossParents)
 			return
 		}
 		checkCase(rt, c)
@@ -3080,6 +3206,36 @@ func TestC13WitnessMixedReceiverStruct(t *testing.T) {
 	} {
 		checkCase(errorfer{t}, c)
 	}
+}
+
+// ---- listed findings: one in-memory child reachable through several relations ------------------------
+
+// classSharedPartlyNew: a record already saved through an earlier relation of the operation (the
+// parent's belongs-to) is also an element of a later association slice that holds a not yet saved
+// record too (Friends = [boss, new]). callbacks/helper.go loadOrStoreVisitMap answers "already
+// saved" for a slice only when EVERY element was seen, so saveAssociations creates the whole slice
+// again: the four create hooks of the shared record fire a second time (the INSERT is ON CONFLICT
+// DO NOTHING, the rows are right). With a slice of only seen records the hooks fire once.
+const classSharedPartlyNew = "shared-child-in-partly-new-slice"
+
+// classSharedAcrossParents: two parents of one slice argument hold the same new (zero key)
+// belongs-to record. SaveBeforeAssociations de-duplicates the belongs-to values by primary key
+// only, a zero key is "always distinct": the one in-memory record is put into the nested Create
+// twice - its hooks fire twice and TWO rows are inserted for it.
+const classSharedAcrossParents = "shared-child-across-parents"
+
+func TestC13WitnessSharedChildPartlyNew(t *testing.T) {
+	b := &KidSpec{Tag: "r0.boss", Name: "b"}
+	// control: a slice of only seen records - holds
+	checkCase(t, &Case{Op: opCreate, Shape: shPtr, Probe: "exec", Share: "friends=seen", Recs: []RecSpec{{Tag: "r0", Name: "a", Note: "n", Boss: b, Friends: []KidSpec{*b}}}})
+	checkCase(errorfer{t}, &Case{Op: opCreate, Shape: shPtr, Probe: "exec", Share: "friends=seen+new",
+		Recs: []RecSpec{{Tag: "r0", Name: "a", Note: "n", Boss: b, Friends: []KidSpec{*b, {Tag: "r0.f0", Name: "f"}}}}})
+}
+
+func TestC13WitnessSharedChildAcrossParents(t *testing.T) {
+	b := &KidSpec{Tag: "r0.boss", Name: "b"}
+	checkCase(errorfer{t}, &Case{Op: opCreate, Shape: shPtrSlice, Probe: "exec", Share: "boss-across-parents",
+		Recs: []RecSpec{{Tag: "r0", Name: "a", Note: "n", Boss: b}, {Tag: "r1", Name: "b", Note: "n", Boss: b}}})
 }
 
 // errorfer lets a witness report every failing input instead of stopping at the first.
